@@ -171,7 +171,6 @@ Variable fmt_float : Z -> list Z.
 Notation bin_op := (RefSem.bin_op pow log10).
 Notation lower_bin := (Ops.lower_bin pow log10).
 
-Definition compiles_to (r : lres) (v : value) : Prop := r = LReject \/ r = LOk (repr v).
 
 Definition scalar_binop (op : binop) : bool :=
   match op with BConcat | BIndex | BSliceTo | BSliceFrom => false | _ => true end.
@@ -236,12 +235,14 @@ Lemma bit_correct : forall f a b v,
   (forall x y, f (x mod 2^64) (y mod 2^64) = (f x y) mod 2^64) ->
   wf a -> wf b ->
   bitop f a b = ROk v ->
-  compiles_to (lower_bit f (repr a) (repr b)) v.
+  lower_bit f (repr a) (repr b) = LOk (repr v).
 Proof.
   intros f a b v HF Wa Wb H.
-  destruct a, b; cbn in Wa, Wb; try contradiction; cbn in H; inv H; cbn [repr lower_bit];
-    try (left; reflexivity); right; cbn [repr]; try reflexivity.
-  rewrite wrap64_mod. now rewrite HF.
+  destruct a, b; cbn in Wa, Wb; try contradiction; cbn in H; inv H; cbn [repr lower_bit]; try reflexivity;
+    rewrite wrap64_mod; unfold zext8_64.
+  - now rewrite HF.
+  - rewrite <- (small_byte_mod z0) at 1 by assumption. now rewrite HF.
+  - rewrite <- (small_byte_mod z) at 1 by assumption. now rewrite HF.
 Qed.
 
 Lemma fbin_correct : forall ff a b v,
@@ -293,28 +294,46 @@ Proof.
     cbn [repr lower_mod]. unfold urem8. rewrite E0. reflexivity.
 Qed.
 
+Lemma shl64_ok : forall z n, 0 <= n < 64 ->
+  shl64 (z mod 2^64) n = Some ((wrap64 (z * 2 ^ n)) mod 2^64).
+Proof.
+  intros z n Hn. unfold shl64. replace (n <? 64) with true by (symmetry; apply Z.ltb_lt; lia).
+  rewrite wrap64_mod. unfold m64. now rewrite Zmult_mod_idemp_l.
+Qed.
+
+Lemma lshr64_ok : forall z n, 0 <= n < 64 ->
+  lshr64 (z mod 2^64) n = Some ((wrap64 ((z mod 2^64) / 2 ^ n)) mod 2^64).
+Proof.
+  intros z n Hn. unfold lshr64. replace (n <? 64) with true by (symmetry; apply Z.ltb_lt; lia).
+  rewrite wrap64_mod. f_equal. rewrite (Z.mod_small ((z mod 2^64) / 2 ^ n)); [reflexivity|].
+  assert (0 <= z mod 2^64 < 2^64) by (apply Z.mod_pos_bound; lia).
+  assert (0 < 2 ^ n) by (apply Z.pow_pos_nonneg; lia).
+  split; [apply Z.div_pos; lia|].
+  apply Z.div_lt_upper_bound; [lia|]. nia.
+Qed.
+
 Lemma shift_correct : forall left a b v,
   wf a -> wf b -> shift left a b = ROk v ->
-  compiles_to (lower_shift left (repr a) (repr b)) v.
+  lower_shift left (repr a) (repr b) = LOk (repr v).
 Proof.
   intros left a b v Wa Wb H.
   destruct a, b; cbn in Wa, Wb; try contradiction; cbn [shift to_i] in H; unfold ill in H; try discriminate H.
   - destruct ((z0 <? 0) || (64 <=? z0)) eqn:G; [discriminate H|]. inv H.
     apply orb_false_iff in G. destruct G as [G1 G2]. apply Z.ltb_ge in G1. apply Z.leb_gt in G2.
-    right. cbn [repr lower_shift]. rewrite (Z.mod_small z0) by lia.
-    destruct left; unfold shl64, lshr64; (replace (z0 <? 64) with true by (symmetry; apply Z.ltb_lt; lia));
-      cbn [of_opt]; rewrite wrap64_mod; unfold m64.
-    + now rewrite Zmult_mod_idemp_l.
-    + f_equal. rewrite (Z.mod_small ((z mod 2^64) / 2 ^ z0)); [reflexivity|].
-      assert (0 <= z mod 2^64 < 2^64) by (apply Z.mod_pos_bound; lia).
-      assert (0 < 2 ^ z0) by (apply Z.pow_pos_nonneg; lia).
-      split; [apply Z.div_pos; lia|].
-      apply Z.div_lt_upper_bound; [lia|]. nia.
-  - left. destruct ((z0 <? 0) || (64 <=? z0)); [discriminate H|]. reflexivity.
-  - left. destruct ((z0 <? 0) || (8 <=? z0)); [discriminate H|]. reflexivity.
+    cbn [repr lower_shift]. rewrite (Z.mod_small z0) by lia.
+    destruct left; [rewrite shl64_ok by lia|rewrite lshr64_ok by lia]; reflexivity.
+  - destruct ((z0 <? 0) || (64 <=? z0)) eqn:G; [discriminate H|]. inv H.
+    apply orb_false_iff in G. destruct G as [G1 G2]. apply Z.ltb_ge in G1. apply Z.leb_gt in G2.
+    cbn [repr lower_shift]. unfold zext8_64.
+    destruct left; [rewrite shl64_ok by lia|rewrite lshr64_ok by lia]; reflexivity.
   - destruct ((z0 <? 0) || (8 <=? z0)) eqn:G; [discriminate H|]. inv H.
     apply orb_false_iff in G. destruct G as [G1 G2]. apply Z.ltb_ge in G1. apply Z.leb_gt in G2.
-    right. cbn [repr lower_shift].
+    cbn [repr lower_shift]. unfold trunc64_8. rewrite mod_mod_256. rewrite (Z.mod_small z0 256) by lia.
+    destruct left; unfold shl8, lshr8; (replace (z0 <? 8) with true by (symmetry; apply Z.ltb_lt; lia));
+      reflexivity.
+  - destruct ((z0 <? 0) || (8 <=? z0)) eqn:G; [discriminate H|]. inv H.
+    apply orb_false_iff in G. destruct G as [G1 G2]. apply Z.ltb_ge in G1. apply Z.leb_gt in G2.
+    cbn [repr lower_shift].
     destruct left; unfold shl8, lshr8; (replace (z0 <? 8) with true by (symmetry; apply Z.ltb_lt; lia));
       reflexivity.
 Qed.
@@ -331,75 +350,70 @@ Proof.
 Qed.
 
 (* THE THEOREM for binary operators: typed (wf, scalar) -> defined (RefSem gives a value, i.e. no guard) ->
-   whenever LLVM accepts the emitted instruction it computes RefSem's value; all operand values. *)
+   the emitted instruction computes RefSem's value; all operand values; one excluded cell. *)
 Theorem bin_lowering_correct : forall op a b v,
   wf a -> wf b -> scalar_binop op = true -> div_byte_komma op a b = false ->
   bin_op op a b = ROk v ->
-  compiles_to (lower_bin op (repr a) (repr b)) v.
+  lower_bin op (repr a) (repr b) = LOk (repr v).
 Proof.
   intros op a b v Wa Wb SC NC H.
   destruct op; cbn [scalar_binop] in SC; try discriminate SC; cbn [RefSem.bin_op] in H; cbn [Ops.lower_bin].
-  - (* And *) destruct a, b; try discriminate H; inv H. right. cbn. destruct b0, b; reflexivity.
-  - (* Or *) destruct a, b; try discriminate H; inv H. right. cbn. destruct b0, b; reflexivity.
-  - (* Xor *) destruct a, b; try discriminate H; inv H. right. reflexivity.
-  - (* Plus *) right. eapply arith_correct; eauto.
+  - (* And *) destruct a, b; try discriminate H; inv H. cbn. destruct b0, b; reflexivity.
+  - (* Or *) destruct a, b; try discriminate H; inv H. cbn. destruct b0, b; reflexivity.
+  - (* Xor *) destruct a, b; try discriminate H; inv H. reflexivity.
+  - (* Plus *) eapply arith_correct; eauto.
     + intros. unfold add64, m64. now rewrite <- Zplus_mod.
     + reflexivity.
-  - (* Minus *) right. eapply arith_correct; eauto.
+  - (* Minus *) eapply arith_correct; eauto.
     + intros. unfold sub64, m64. now rewrite <- Zminus_mod.
     + reflexivity.
-  - (* Mult *) right. eapply arith_correct; eauto.
+  - (* Mult *) eapply arith_correct; eauto.
     + intros. unfold mul64, m64. now rewrite <- Zmult_mod.
     + reflexivity.
-  - (* Div *) right. apply div_correct; auto.
-  - (* Pow *) right. apply fbin_correct; auto.
-  - (* Log *) right. apply fbin_correct; auto.
+  - (* Div *) apply div_correct; auto.
+  - (* Pow *) apply fbin_correct; auto.
+  - (* Log *) apply fbin_correct; auto.
   - (* LogicAnd *) apply bit_correct; auto using land_mod.
   - (* LogicOr *) apply bit_correct; auto using lor_mod.
   - (* LogicXor *) apply bit_correct; auto using lxor_mod.
-  - (* Mod *) right. apply mod_correct; auto.
+  - (* Mod *) apply mod_correct; auto.
   - (* Shl *) apply shift_correct; auto.
   - (* Shr *) apply shift_correct; auto.
-  - (* Eq *) right.
+  - (* Eq *)
     destruct (ty_eqb (type_of a) (type_of b)) eqn:TE; [|discriminate H].
     destruct (value_eqb a b) eqn:VE; [|discriminate H]. inv H.
     now apply eq_correct.
-  - (* Ne *) right.
+  - (* Ne *)
     destruct (ty_eqb (type_of a) (type_of b)) eqn:TE; [|discriminate H].
     destruct (value_eqb a b) eqn:VE; [|discriminate H]. inv H.
     rewrite (eq_correct a b b0) by assumption. cbn [repr]. destruct b0; reflexivity.
-  - (* Lt *) right. eapply cmp_correct; eauto using icmp_slt; reflexivity.
-  - (* Gt *) right. eapply cmp_correct; eauto using icmp_sgt; reflexivity.
-  - (* Le *) right. eapply cmp_correct; eauto using icmp_sle; reflexivity.
-  - (* Ge *) right. eapply cmp_correct; eauto using icmp_sge; reflexivity.
+  - (* Lt *) eapply cmp_correct; eauto using icmp_slt; reflexivity.
+  - (* Gt *) eapply cmp_correct; eauto using icmp_sgt; reflexivity.
+  - (* Le *) eapply cmp_correct; eauto using icmp_sle; reflexivity.
+  - (* Ge *) eapply cmp_correct; eauto using icmp_sge; reflexivity.
 Qed.
 
 (* the pinned tree is wrong in the excluded cell: 200 als Byte durch 2,0 *)
 Definition two_f : Z := 4611686018427387904.   (* 2.0 *)
 Theorem div_byte_komma_refuted :
   exists a b v, wf a /\ wf b /\ bin_op BDiv a b = ROk v /\
-                lower_bin BDiv (repr a) (repr b) <> LOk (repr v) /\ lower_bin BDiv (repr a) (repr b) <> LReject.
+                lower_bin BDiv (repr a) (repr b) <> LOk (repr v).
 Proof.
   exists (VB 200), (VK two_f), (VK (f_div (f_of_Z 200) two_f)).
   split; [cbn; lia|]. split; [vm_compute; reflexivity|]. split; [reflexivity|].
-  split; vm_compute; intros C; discriminate C.
+  vm_compute; intros C; discriminate C.
 Qed.
 
 (* ---- unary operators ---------------------------------------------------------------------------- *)
 Notation un_op := (RefSem.un_op).
 
-(* cells that are C02's: Betrag of a Byte leaves an i8 where the typechecker promises a Zahl; unary minus
-   on a Byte does not compile at all *)
-Definition un_c02_cell (op : unop) (a : value) : bool :=
-  match op, a with UAbs, VB _ | UNeg, VB _ => true | _, _ => false end.
-
 Theorem un_lowering_correct : forall op a v,
-  wf a -> op <> ULen -> un_c02_cell op a = false ->
+  wf a -> op <> ULen ->
   un_op op a = ROk v ->
   lower_un op (repr a) = LOk (repr v).
 Proof.
-  intros op a v Wa NL NC H.
-  destruct op; try congruence; destruct a; cbn in Wa; try contradiction; cbn in NC; try discriminate NC;
+  intros op a v Wa NL H.
+  destruct op; try congruence; destruct a; cbn in Wa; try contradiction;
     cbn in H; inv H; cbn [repr lower_un].
   - (* Abs Z *)
     f_equal. f_equal.
@@ -408,8 +422,10 @@ Proof.
     destruct (z <? 0); [|reflexivity].
     rewrite wrap64_mod. unfold sub64, m64. rewrite Zminus_mod_idemp_r. reflexivity.
   - (* Abs K *) cbn [fcmp]. rewrite Wa. reflexivity.
+  - (* Abs B *) unfold zext8_64. now rewrite small_byte_mod.
   - (* Neg Z *) rewrite wrap64_mod. unfold sub64, m64. rewrite Zminus_mod_idemp_r. reflexivity.
   - (* Neg K *) reflexivity.
+  - (* Neg B *) unfold sub64, zext8_64, m64. reflexivity.
   - (* Not *) destruct b; reflexivity.
   - (* LogicNot Z *) f_equal. f_equal. unfold m64. apply (lnot_mod z 64). lia.
   - (* LogicNot B *)
